@@ -52,6 +52,49 @@ Theorem tty_chunks_partition ctx st ts chunks1 chunks2 :
   tty_chunks ctx st ts chunks1 = tty_chunks ctx st ts chunks2.
 Proof. intros Hb Hc E. rewrite !tty_chunks_concat by assumption. rewrite E. reflexivity. Qed.
 
+(* ---------- one adapter used for several writes, with parent() in between ---------- *)
+Lemma sess_u_merge ctx items : forall st, sess_u ctx st (merge_items items) = sess_u ctx st items.
+Proof.
+  induction items as [|[a|o] rest IH]; intros st; cbn [merge_items]; [reflexivity| |].
+  - destruct (merge_items rest) as [|[b|o] r'] eqn:Em.
+    + cbn [sess_u]. destruct (write_bytes ctx st a) as [[st1 [|]]| | |]; try reflexivity.
+      rewrite <- IH. reflexivity.
+    + cbn [sess_u]. rewrite write_bytes_app.
+      destruct (write_bytes ctx st a) as [[st1 [|]]| | |]; try reflexivity.
+      rewrite <- IH. reflexivity.
+    + cbn [sess_u]. destruct (write_bytes ctx st a) as [[st1 [|]]| | |]; try reflexivity.
+      rewrite <- IH. reflexivity.
+  - cbn [sess_u]. destruct (simple_step ctx st o) as [[st1 f]| | |]; try reflexivity. apply IH.
+Qed.
+
+Lemma tty_write_app ctx st ts a b : InBounds (w_sh st) (length (w_data st)) -> TokOk ts ->
+  tty_write ctx st ts (a ++ b) =
+  match tty_write ctx st ts a with
+  | Ok (st1, ts1) => tty_write ctx st1 ts1 b
+  | other => other
+  end.
+Proof.
+  intros Hb Hc. rewrite !tty_write_fold by apply Hc. rewrite tty_fold_app.
+  destruct (tty_fold_total ctx a st ts Hb Hc) as (st1 & ts1 & E & Hc1). rewrite E.
+  rewrite tty_write_fold by apply Hc1. reflexivity.
+Qed.
+
+Lemma sess_t_merge ctx items : forall st ts, InBounds (w_sh st) (length (w_data st)) -> TokOk ts ->
+  sess_t ctx st ts (merge_items items) = sess_t ctx st ts items.
+Proof.
+  induction items as [|[a|o] rest IH]; intros st ts Hb Hc; cbn [merge_items]; [reflexivity| |].
+  - destruct (tty_write_total ctx a st ts Hb Hc) as (st1 & ts1 & E & Hc1).
+    assert (Hb1 : InBounds (w_sh st1) (length (w_data st1))).
+    { eapply keeps_inbounds; [eapply tty_write_keeps; exact E|exact Hb]. }
+    specialize (IH st1 ts1 Hb1 Hc1).
+    destruct (merge_items rest) as [|[b|o] r'] eqn:Em.
+    + cbn [sess_t]. rewrite E. rewrite <- IH. reflexivity.
+    + cbn [sess_t]. rewrite tty_write_app by assumption. rewrite E. rewrite <- IH. reflexivity.
+    + cbn [sess_t]. rewrite E. rewrite <- IH. reflexivity.
+  - cbn [sess_t]. destruct (simple_step ctx st o) as [[st1 f]| | |] eqn:E; try reflexivity.
+    apply IH; [|exact Hc]. eapply keeps_inbounds; [eapply simple_step_keeps; exact E|exact Hb].
+Qed.
+
 (* ---------- whole client programs ---------- *)
 Lemma wop_step_merge ctx st o : InBounds (w_sh st) (length (w_data st)) ->
   wop_step ctx st o = wop_step ctx st (merge_op o).
@@ -62,6 +105,8 @@ Proof.
     cbn. now rewrite app_nil_r.
   - rewrite (tty_chunks_partition ctx st (t0 (cmd_dfa ctx)) chunks [concat chunks] Hb (t0_tokok _)); [reflexivity|].
     cbn. now rewrite app_nil_r.
+  - rewrite sess_u_merge. reflexivity.
+  - rewrite (sess_t_merge ctx items st (t0 (cmd_dfa ctx)) Hb (t0_tokok _)). reflexivity.
 Qed.
 
 Lemma wops_run_merge ctx ops : forall st, InBounds (w_sh st) (length (w_data st)) ->
